@@ -963,6 +963,7 @@ pub fn c10builtins(repo: &Path) -> Result<String, String> {
         // (`let raw = this.0.lock().unwrap();`, the lock events are C10C's / C16's
         // subject) and cfg(verif-hooks) statements may stand
         let mut scrut = None;
+        let mut pending: Option<(String, Expr)> = None;
         for st in f.block.stmts.iter().skip(1) {
             let txt = st.to_token_stream().to_string().replace(' ', "");
             if txt.starts_with("#[cfg(feature=\"verif-hooks\")]") { continue; }
@@ -973,7 +974,22 @@ pub fn c10builtins(repo: &Path) -> Result<String, String> {
                     if rhs == "0.lock().unwrap();" || helper_call { continue; }
                 }
             }
-            if let Stmt::Expr(Expr::Match(m), _) = st { scrut = Some((*m.expr).clone()); }
+            // the lookup bound to a local first: `let looked_up = <expr with .get(..)>; match looked_up { … }`
+            if let Stmt::Local(l) = st {
+                if let (Pat::Ident(pi), Some(init)) = (&l.pat, &l.init) {
+                    if pending.is_none() && init.diverge.is_none() && txt.contains(".get(") {
+                        pending = Some((pi.ident.to_string(), (*init.expr).clone()));
+                        continue;
+                    }
+                }
+            }
+            if let Stmt::Expr(Expr::Match(m), _) = st {
+                scrut = match &pending {
+                    Some((name, e)) if m.expr.to_token_stream().to_string().replace(' ', "") == *name => Some(e.clone()),
+                    Some(_) => None,
+                    None => Some((*m.expr).clone()),
+                };
+            }
             break;
         }
         let scrut = scrut.ok_or("list_get: expected `match idx.and_then(..)` after the index conversion (and the lock acquisition)")?;
